@@ -422,6 +422,16 @@ def r_index_validation(cx):
                 else:
                     break
             vals = None
+            if recv[0] == "const" and isinstance(recv[2], tuple) and recv[2][0] == "path":
+                # a named constant: its value as evaluated from the source
+                import consts
+                try:
+                    cv = consts.const_value(cx.f, recv[2][1])
+                    from fractions import Fraction
+                    if isinstance(cv, (list, tuple)) and all(isinstance(x, (int, float, Fraction)) for x in cv):
+                        vals = [float(x) for x in cv]
+                except Exception:
+                    vals = None
             if recv[0] == "agg" and recv[1] == "array":
                 vals = []
                 for e in recv[2]:
